@@ -320,6 +320,16 @@ def step (d : DState) (line : String) : IO DState := do
     printEvs evs
     out "dropped"
     return noteEvs { d with sys := sys' } evs
+  | "rt" :: _ => out "rt model-skipped"; return d   -- implementation-only round trip of a huge record
+  | ["forkhold"] => out "forkhold ok"; return d   -- a forked child holds copies of the descriptors: no effect
+  | ["forkrelease"] => out "forkrelease ok"; return d
+  | ["dropslow"] =>
+    -- dropped while the worker is slow: same obligations as a plain drop
+    if d.sys.store.isNone then out "dropped none"; return d
+    let (sys', evs) := d.sys.dropStore
+    printEvs evs
+    out "dropped"
+    return noteEvs { d with sys := sys' } evs
   | ["drop"] =>
     if d.sys.store.isNone then out "dropped none"; return d
     let (sys', evs) := d.sys.dropStore
